@@ -67,6 +67,10 @@ typedef struct {
   // For #line directive
   char *display_name;
   int line_delta;
+
+  // Offsets in `contents` at which a backslash-newline was removed,
+  // in ascending order and terminated by -1 (NULL if there is none).
+  int *splices;
 } File;
 
 // Token type
